@@ -34,11 +34,19 @@ COQ_IMPORTS = (vlib.COQ_HEADER + "From Common Require Import Str Res Cases.\n"
 
 # ---------------------------------------------------------------------------- generators
 
+# the same text in different Unicode normalisation forms (precomposed / decomposed /
+# singleton equivalents): DIFFERENT names, hence different playlists
+NORMALIZATION_PAIRS = [("caf\u00e9", "cafe\u0301"), ("\u00c5ngstr\u00f6m", "A\u030angstro\u0308m"), ("\u212b", "\u00c5"),
+                       ("\u2126 mega", "\u03a9 mega"), ("\ud55c\uae00", "\u1112\u1161\u11ab\u1100\u1173\u11af"),
+                       ("\u1e69", "s\u0323\u0307"), ("\u00f1o", "n\u0303o")]
+# compatibility characters that turn into '/', '.', '..', '\\', blanks or ASCII under NFKC/NFKD
+COMPAT_NAMES = ["a\uff0fb", "\u2024\u2024", "\uff0e\uff0e\uff0fup", "\uff3cback", "\ufe52dot", "\u3000wide space\u3000",
+                "\u00a0nbsp\u00a0", "\ufb01ligature", "\uff11\uff12", "x\u2025y", "\u2024hidden", "\u2215div", "a\u2044b"]
 NAME_ATOMS = ["My", "Playlist", "Vol", "2", ".", ".", " ", "/", "|", "ä", "☃", "é", "x", "Mix", "-", "_", "#", "?", "%",
               "&", "m3u", "m3u8", ",", "Ω", " ", "日本", "a", "B"]
 NAME_FIXED = ["My.Playlist", "Vol. 2", "a/b", ".hidden", "x.", "ä ö", "☃", " lead", "trail ", "a.b.c", "plain",
               "q?x#y", "100%", "a|b", "..", ".", "x.m3u", "x.m3u8", "ünï.cödé", "/abs", "a//b", "..|..|etc",
-              "tab\there", "Best of 80's", "v1.0.2 final", " ", " . ", " .. "]
+              "tab\there", "Best of 80's", "v1.0.2 final", " ", " . ", " .. "] + [x for pair in NORMALIZATION_PAIRS for x in pair] + COMPAT_NAMES
 URI_FIXED = ["dummy:a", "dummy:track:1", "file:///music/a%20b.mp3", "http://example.com/s?x=1&y=2#frag",
              "spotify:track:6rqhFgbbKwnb9MLmUQDhG6", "local:track:ä/ö.flac", "yt:https://youtu.be/x", "x-y+z.1:opaque",
              "file:///x y", "HTTP://UPPER/", "a:", "dummy:with,comma", "dummy:☃", "mms://h/p", "file:///m3u/#EXTINF"]
@@ -443,7 +451,57 @@ def g_pl(t):
     return f"({g_str(t[0])}, {g_str(t[1])}, {g_items(t[2])})"
 
 
+def distinct_names_stage(chk):
+    """Distinct names -> distinct playlists: two names that differ (even only in their Unicode
+    normalisation form) must end up in two files that do not overwrite each other, each read back
+    under its own name."""
+    import files_child
+    from mopidy.models import Track
+
+    pairs = list(NORMALIZATION_PAIRS) + [("a\uff0fb", "a/b"), ("\uff11", "1"), ("x\u3000y", "x y"), ("\ufb01", "fi"),
+                                         ("\u2024", "."), ("A", "a")]
+    for a, b in pairs:
+        for ext, enc in ((".m3u8", "latin-1"), (".m3u", "utf-8")):
+            for how in ("create", "rename"):
+                root = Path(os.path.realpath(tempfile.mkdtemp(prefix="verif-c19-")))
+                try:
+                    prov = files_child.make_provider({"ext": ext, "encoding": enc}, root)
+                    made = []
+                    for nm, tag in ((a, "A"), (b, "B")):
+                        if how == "create":
+                            pl = prov.create(nm)
+                        else:
+                            pl = prov.create("tmp-" + tag)
+                            pl = pl and prov.save(pl.replace(name=nm))
+                        pl = pl and prov.save(pl.replace(tracks=(Track(uri="dummy:" + tag, name=tag),)))
+                        made.append(pl)
+                    chk.count(1, nontrivial_key=("distinct", a, b, ext, how))
+                    chk.dist("distinct-names:" + how)
+                    case = {"names": [a, b], "escaped": [a.encode("unicode_escape").decode(), b.encode("unicode_escape").decode()],
+                            "ext": ext, "how": how, "dir": sorted(os.listdir(root))}
+                    want = [x.strip().replace("/", "|") for x in (a, b)]
+                    if None in made:
+                        continue
+                    back = [prov.lookup(p.uri) for p in made]
+                    problems = []
+                    if want[0] != want[1]:
+                        if made[0].uri == made[1].uri or len(os.listdir(root)) != 2:
+                            problems.append("the two names share one file")
+                        if [[t.uri for t in (x.tracks if x else ())] for x in back] != [["dummy:A"], ["dummy:B"]]:
+                            problems.append("one playlist's tracks were overwritten by the other")
+                        if len(prov.as_list()) != 2:
+                            problems.append(f"as_list shows {len(prov.as_list())} playlists")
+                    if [x and x.name for x in back] != want:
+                        problems.append(f"names read back as {[x and x.name for x in back]!r}")
+                    if problems:
+                        chk.monitor_failure("distinct_names_distinct_playlists", {"call": how, "same_after_normalisation": True},
+                                            "; ".join(problems), case)
+                finally:
+                    shutil.rmtree(root, ignore_errors=True)
+
+
 def provider_stage(chk):
+    distinct_names_stage(chk)
     results = provider_sequences(chk)
     terms, meta = [], []
     for res in results:
@@ -552,6 +610,15 @@ class SaveScenario:
                 "rename": self.name}
 
     def run(self, inject=None):
+        for attempt in range(3):
+            r = self._run_once(inject)
+            # under heavy load strace occasionally starts logging after the child was released
+            # (no BEGIN marker in the log): such a run observed nothing; repeat it
+            if not (r["error"] and "BEGIN marker not found" in r["error"] and attempt < 2):
+                return r
+        return r
+
+    def _run_once(self, inject=None):
         root = Path(os.path.realpath(tempfile.mkdtemp(prefix="verif-c19-")))
         d = root / "pl"
         d.mkdir()
@@ -617,6 +684,7 @@ def atomic_stage(chk):
 
     listing, lmeta, base_terms, base_meta = [], [], [], []
     ren_terms, ren_meta = [], []
+    pl_terms, pl_meta = [], []
 
     def g_files(d, snap):
         return g_list([f"({g_bytes(d + b'/' + k)}, {g_bytes(v)})" for k, v in sorted(snap.items())])
@@ -708,8 +776,36 @@ def atomic_stage(chk):
         if what != "kill" and temps:
             chk.monitor_failure("handled_failure_clean", {"call": sc.action, "failed_call": att["kind"]},
                                 f"{att['kind']} failing with {what}: temporary file(s) left: {[os.fsdecode(t) for t in temps]}", case)
+        if what != "kill" and not (sc.action == "m3u_save" and sc.name):
+            # power loss after a run in which a call FAILED: the playlist must still be the old or
+            # the new one (a failing fsync must abandon the save, whatever save() reports)
+            d = r["dir"]
+            tgt = d + b"/" + sc.target()
+            files = {os.fsencode(k): v for k, v in sc.files.items()}
+            cur = r["snapshot"].get(sc.target())
+            fenc2 = enc_for(os.fsdecode(sc.target()), sc.enc)
+            new_r = expected_bytes(sc.tracks, fenc2) if sc.action == "m3u_save" else b""
+            pl_terms.append(f"({ft.g_kops(r['trace']['ops'])}, {g_files(d, files)}, {g_bytes(tgt)}, {g_bytes(new_r)})")
+            pl_meta.append(({**case, "trace_of_this_run": ft.describe(r["trace"]["ops"]), "exit": r["status"],
+                             "save_reported_success": r["status"].get("exit") == 0}, r["trace"]["ops"],
+                            {"call": sc.action, "run": "failing-call", "failed_call": att["kind"]}))
 
     import c11
+    vals = c11._eval_values(
+        chk, "powerloss", pl_terms,
+        "Definition val (c : list kop * list (path * bytes) * path * bytes) : Z :=\n"
+        "  let '(ops, files, t, new) := c in\n"
+        "  match pl_first_bad_from (dinit_files files) ops t (old_of t files) new 0 with Some k => k | None => -1 end.\n",
+        "list kop * list (path * bytes) * path * bytes")
+    chk.obligation("eval:powerloss", "correspondence", vals is not None)
+    for (case, ops, key), k in zip(pl_meta, vals or []):
+        chk.count(1)
+        chk.dist("atomic:powerloss:failing-call")
+        if k >= 0:
+            after = ops[k - 1][0] if k >= 1 else "start"
+            chk.monitor_failure("powerloss_old_or_new", {**key, "bad_after": after},
+                                f"power loss after call #{k} ({after}) of this run: the playlist would hold data that was never "
+                                "fsynced, neither the complete old nor the complete new content", {**case, "first_bad_point": k})
     ok_listing = c11._eval_mismatches(
         chk, "kernel_model", listing, lmeta,
         "Definition ok (c : list kop * list (path * bytes) * list path * list (path * bytes)) : bool :=\n"
